@@ -123,26 +123,29 @@ func (m *Memberlist) schedule() {
 	m.tickerLock.Lock()
 	defer m.tickerLock.Unlock()
 
-	// If we already have tickers, then don't do anything, since we're
-	// scheduled
-	if len(m.tickers) > 0 {
+	// If we already have a stop channel, then don't do anything, since
+	// we're scheduled
+	if m.stopTick != nil {
 		return
 	}
 
 	// Create the stop tick channel, a blocking channel. We close this
 	// when we should stop the tickers.
 	stopCh := make(chan struct{})
+	started := false
 
 	// Create a new probeTicker
 	if m.config.ProbeInterval > 0 {
 		t := time.NewTicker(m.config.ProbeInterval)
 		go m.triggerFunc(m.config.ProbeInterval, t.C, stopCh, m.probe)
 		m.tickers = append(m.tickers, t)
+		started = true
 	}
 
 	// Create a push pull ticker if needed
 	if m.config.PushPullInterval > 0 {
 		go m.pushPullTrigger(stopCh)
+		started = true
 	}
 
 	// Create a gossip ticker if needed
@@ -150,11 +153,13 @@ func (m *Memberlist) schedule() {
 		t := time.NewTicker(m.config.GossipInterval)
 		go m.triggerFunc(m.config.GossipInterval, t.C, stopCh, m.gossip)
 		m.tickers = append(m.tickers, t)
+		started = true
 	}
 
-	// If we made any tickers, then record the stopTick channel for
-	// later.
-	if len(m.tickers) > 0 {
+	// If we started anything (the push/pull trigger is not a ticker, but
+	// listens on the stop channel too), then record the stopTick channel
+	// for later.
+	if started {
 		m.stopTick = stopCh
 	}
 }
@@ -212,13 +217,14 @@ func (m *Memberlist) deschedule() {
 	m.tickerLock.Lock()
 	defer m.tickerLock.Unlock()
 
-	// If we have no tickers, then we aren't scheduled.
-	if len(m.tickers) == 0 {
+	// If we have no stop channel, then we aren't scheduled.
+	if m.stopTick == nil {
 		return
 	}
 
 	// Close the stop channel so all the ticker listeners stop.
 	close(m.stopTick)
+	m.stopTick = nil
 
 	// Explicitly stop all the tickers themselves so they don't take
 	// up any more resources, and get rid of the list.
